@@ -839,10 +839,17 @@ class Machine:
         if isinstance(e, ast.BinOp):
             a, b = self.eval(e.left, env, f), self.eval(e.right, env, f)
             return self.elementwise(a, b, lambda x, y: self.binop(x, e.op, y), fresh=True)
-        if isinstance(e, ast.Tuple):
-            return tuple(self.eval(x, env, f) for x in e.elts)
-        if isinstance(e, ast.List):
-            return [self.eval(x, env, f) for x in e.elts]
+        if isinstance(e, (ast.Tuple, ast.List)):
+            items = []
+            for x in e.elts:
+                if isinstance(x, ast.Starred):
+                    v = self.eval(x.value, env, f)
+                    if not isinstance(v, (list, tuple)):
+                        raise Unsup(f"unpacking of {v!r} at {f.module.relpath}:{e.lineno}")
+                    items += list(v)
+                else:
+                    items.append(self.eval(x, env, f))
+            return tuple(items) if isinstance(e, ast.Tuple) else items
         if isinstance(e, ast.Dict):
             return {"__dict__": True}
         if isinstance(e, ast.IfExp):
